@@ -38,6 +38,8 @@ type Prop struct {
 	// monitor can wait (bounded-progress restatement of "returns"). 0 = 120 (quick) / 600 (thorough).
 	// CPU seconds, not wall-clock seconds: the bound does not move with the load on the machine.
 	CallCPUSec func(tier string) int
+	// StallDetector starts the child-side detector of calls parked for good (see W.StartStallDetector).
+	StallDetector bool
 	// ChildProcs limits how many children run at once (0 = NumCPU).
 	ChildProcs int
 	// MemCapMiB: the parent polls the resident memory of every child (/proc/<pid>/statm) and kills a child
